@@ -123,6 +123,35 @@ func (c c17) Generate(seed uint64, tier string, idx int) *core.Plan {
 		p.Steps = append(p.Steps, core.Step{Op: "order", A: []int64{int64(o)}})
 	}
 	sweep := !cold && (idx/7)%4 == 1 && p.Cfg["disjoint"] == 0
+	// pair profile (atomicity of multi-phase calls): task A makes pairN calls of an operation
+	// that derives the same per-(key, context) value more than once inside one call, task B
+	// makes pairN calls of the same family with other contexts; A's c-th call is preempted at
+	// its call-relative yield j_c, B runs exactly one whole call, A resumes. j_c walks through
+	// 0..pairJ-1 with the plan index, so every yield point inside A's call — including one
+	// between a "check" and a "fetch" that are separately locked — gets exactly this window.
+	pairOps := map[int][2][]int{oECDSA: {{6}, {4, 5, 6}}, oEd: {{4}, {2, 3, 4}}, oIss3: {{0}, {0}}}
+	const pairN, pairJ = 8, 256
+	if po, ok := pairOps[kind]; ok && !cold && (idx/7)%4 == 3 && p.Cfg["disjoint"] == 0 {
+		p.Steps = p.Steps[:0]
+		p.Cfg["warm"] = 0
+		n := pairN
+		if kind == oIss3 {
+			n = 3
+		}
+		for c := 0; c < n; c++ {
+			p.Steps = append(p.Steps, core.Step{Op: "call", A: []int64{0, int64(po[0][r.Intn(len(po[0]))]), int64(r.Intn(1 << 30))}})
+			p.Steps = append(p.Steps, core.Step{Op: "call", A: []int64{1, int64(po[1][r.Intn(len(po[1]))]), int64(r.Intn(1 << 30))}})
+		}
+		p.Steps = append(p.Steps, core.Step{Op: "order", A: []int64{0}}, core.Step{Op: "order", A: []int64{1}})
+		q := idx / 28
+		for c := 0; c < n; c++ {
+			p.Steps = append(p.Steps, core.Step{Op: "preempt", A: []int64{0, int64((q*n + c) % pairJ), 1, int64(c)}})
+			if c+1 < n {
+				p.Steps = append(p.Steps, core.Step{Op: "preempt", A: []int64{1, 0, 0, int64(c + 1)}})
+			}
+		}
+		return p
+	}
 	if sweep {
 		// sweep profile: two tasks, one call each, the first-running task preempted at yield j,
 		// where j walks through 0..319 with the plan index — every yield point of the first call
@@ -572,7 +601,7 @@ func (c c17) Execute(p *core.Plan) *core.Result {
 		case "order":
 			order = append(order, int(st.Arg(0, 0)))
 		case "preempt":
-			pre = append(pre, conc.Preempt{Task: int(st.Arg(0, 0)), Yield: int(st.Arg(1, 0)), Next: int(st.Arg(2, 0))})
+			pre = append(pre, conc.Preempt{Task: int(st.Arg(0, 0)), Yield: int(st.Arg(1, 0)), Next: int(st.Arg(2, 0)), Rel: st.Arg(3, -1) >= 0, Call: int(st.Arg(3, -1))})
 			res.FaultPlanned("preemption")
 		}
 	}
